@@ -34,6 +34,9 @@ type frame struct {
 	params    map[string]Term
 	lets      map[string]Term
 	closure   map[ssa.Value]interface{}
+	modWhole  map[string]bool     // top-level modifies: whole regions
+	modRefs   map[string][]string // top-level modifies: region -> refs
+	modKnown  bool
 }
 
 type loopInfo struct {
@@ -44,6 +47,7 @@ type loopInfo struct {
 	hdrSt   *State // state right after havoc (for body_ensures/decreases)
 	dec0    string
 	phiTerm map[*ssa.Phi]Term
+	frameRegs []string
 }
 
 func isBackEdge(u, h *ssa.BasicBlock) bool { return h.Dominates(u) }
@@ -574,6 +578,16 @@ func (c *FnCtx) loopHeader(fr *frame, b *ssa.BasicBlock, li *loopInfo, st *State
 			st.names[phi.Comment] = nt
 		}
 	}
+	// implicit frame invariant: locations outside the function's modifies clause keep their entry value
+	li.frameRegs = nil
+	if fr.modKnown {
+		for _, r := range rk {
+			if ft, ok := c.frameTerm(fr, st, r); ok {
+				c.assume(guard, ft)
+				li.frameRegs = append(li.frameRegs, r)
+			}
+		}
+	}
 	li.hdrSt = st.clone()
 	if li.spec != nil {
 		env := c.loopEnv(fr, li, st, hv)
@@ -601,6 +615,11 @@ func clauseName(cl Clause, i int) string {
 func (c *FnCtx) backEdge(fr *frame, from, to *ssa.BasicBlock, cond string, st *State) {
 	li := fr.loops[to]
 	name := fmt.Sprintf("loop.%d", li.ordinal)
+	for _, r := range li.frameRegs {
+		if ft, ok := c.frameTerm(fr, st, r); ok {
+			c.oblige("inv-preserve", fmt.Sprintf("inv-preserve#%s.frame.%s@b%d", name, r, from.Index), cond, ft, "implicit frame invariant for region "+r)
+		}
+	}
 	if li.spec == nil {
 		return
 	}
@@ -675,4 +694,24 @@ func (c *FnCtx) val(fr *frame, v ssa.Value) Term {
 		c.fail("value %s = %s is not a term (%T)", v.Name(), v, x)
 	}
 	return t
+}
+
+// frameTerm: "region r differs from its entry version only at the refs listed in modifies".
+func (c *FnCtx) frameTerm(fr *frame, st *State, r string) (string, bool) {
+	if fr.modWhole[r] || c.prof.isTracked(r) {
+		return "", false
+	}
+	srt := c.regSort[r]
+	cur := c.get(st, r)
+	if cur == r+"@0" {
+		return "", false
+	}
+	if !strings.HasPrefix(srt, "(Array Int ") {
+		return fmt.Sprintf("(= %s %s@0)", cur, r), true
+	}
+	var ne []string
+	for _, ref := range fr.modRefs[r] {
+		ne = append(ne, fmt.Sprintf("(not (= q_r %s))", ref))
+	}
+	return fmt.Sprintf("(forall ((q_r Int)) (! (=> (and (<= 0 q_r) (< q_r alloc@0) %s) (= (select %s q_r) (select %s@0 q_r))) :pattern ((select %s q_r))))", strings.Join(ne, " "), cur, r, cur), true
 }
